@@ -91,7 +91,7 @@ var clauseKeywords = map[string]bool{
 	"func": true, "extern": true, "spec": true, "axiom": true, "lemma": true, "ghostvar": true, "ghostfield": true,
 	"constvar": true, "package": true,
 	"requires": true, "ensures": true, "always_ensures": true, "panic_ensures": true, "modifies": true, "panics_if": true,
-	"may_panic": true, "pure": true, "overflow": true, "loop": true, "known": true, "flag": true, "vars": true,
+	"may_panic": true, "pure": true, "preserves": true, "overflow": true, "loop": true, "known": true, "flag": true, "vars": true,
 }
 
 var labelRe = regexp.MustCompile(`^([A-Za-z_][A-Za-z0-9_\-]*):\s+(.*)$`)
@@ -358,7 +358,7 @@ func (cs *ContractSet) parseClause(c *Contract, kind, rest, where string) {
 		c.Clauses = append(c.Clauses, cl)
 		return
 	}
-	if cl.Kind == "modifies" || cl.Kind == "loopmodifies" {
+	if cl.Kind == "modifies" || cl.Kind == "loopmodifies" || cl.Kind == "preserves" {
 		cl.Text = rest
 		if rest == "nothing" {
 			c.Clauses = append(c.Clauses, cl)
